@@ -247,8 +247,12 @@ def run_fault(scen, point, excname, part, second=None):
                 part.violation(case, "second fault (in the follow-up call) was swallowed")
         except BaseException:  # noqa
             pass
-        if e.leaks() and not is_cleanup_unlink(second[0]):
-            part.violation(case, f"temporary file(s) left behind after the second fault: {e.leaks()}")
+        leaks2 = e.leaks()
+        if second[0][4].split(".")[-1] in ("close", "__exit__", "__del__"):
+            # (as for the first fault: a descriptor left open by a failing close IS that failure)
+            leaks2 = [x for x in leaks2 if not x.startswith("open descriptor")]
+        if leaks2 and not is_cleanup_unlink(second[0]):
+            part.violation(case, f"temporary file(s) left behind after the second fault: {leaks2}")
         e.clean_tmp()
     try:
         f = e.followup()
